@@ -210,6 +210,15 @@ Tree* splay_erase(const Key& k, Tree*& t, const Compare& cmp)
         else
         {
             Tree* x = splay(k, t->left, cmp);
+            // with duplicate keys x may be an equal key that still has a
+            // right subtree: rotate the maximum of the left subtree to the top
+            while (x->right != nullptr)
+            {
+                Tree* y = x->right;
+                x->right = y->left;
+                y->left = x;
+                x = y;
+            }
             x->right = t->right;
             t = x;
         }
